@@ -134,9 +134,7 @@ def inDomain3ds (fmt w h : Nat) (payload : Buf) : Bool :=
       payload.size * 8 == bits * w * h
 
 def oracle3ds (fmt w h : Nat) (payload : Buf) (i : List String) : String :=
-  if !inDomain3ds fmt w h payload then
-    if i.getD 2 "" == "panic" && fmt ≤ 13 && payload.size * 2 == Pixel.bppTimes2 fmt * w * h && w % 8 == 0 && h % 8 == 0
-    then "ok skip" else "ok skip"
+  if !inDomain3ds fmt w h payload then "ok skip"
   else match implOk i with
     | none => "FAIL the decoder must succeed on this input, got " ++ " ".intercalate (i.drop 2)
     | some out =>
